@@ -66,12 +66,17 @@ func vGetLevels(t *topicLevelManager, topic string) ([]string, error) {
 }
 
 // vLevel: one filter level: empty, a literal (one byte of the small alphabet), '+' or '#'.
-func vLevel(label string, wildcards bool) string {
+// Topic names: the "other" literal is b at the first level and $ below it (a level that
+// begins with '$' is ordinary text there; at the FIRST level MQTT-4.7.2-1 forbids wildcard
+// matches, which the statement's rules do not mention: not explored either way).
+func vLevel(label string, wildcards bool, first bool) string {
 	s := verifString(label, 1)
 	if wildcards {
 		verifAssume(s == "" || s == "a" || s == "+" || s == "#")
-	} else {
+	} else if first {
 		verifAssume(s == "" || s == "a" || s == "b")
+	} else {
+		verifAssume(s == "" || s == "a" || s == "$")
 	}
 	return s
 }
@@ -80,7 +85,7 @@ func vFilter(label string, maxLevels int, wildcards bool) []string {
 	n := verifChoose(label+".levels", maxLevels) + 1
 	levels := make([]string, n)
 	for i := 0; i < n; i++ {
-		levels[i] = vLevel(label+".level", wildcards)
+		levels[i] = vLevel(label+".level", wildcards, i == 0)
 		if i < n-1 {
 			verifAssume(levels[i] != "#") // '#' only as the last level (well-formed, lemma 1)
 		}
